@@ -74,6 +74,108 @@ theorem history_update_isWitness (α y : F) (V C : G) (bs : List (List F × List
     · intro b' hb'; exact hdel b' (by simp [hb'])
     · exact batch_update_isWitness α y V C b.1 b.2 (hd b (by simp)) (hdel b (by simp)) hw
 
+/-! ### one multi-batch call over the whole history (`evaluate_deltas`) -/
+
+/-- the data the issuer publishes along a history of batches, starting from accumulator `V` -/
+def published (α : F) (V : G) : List (List F × List F) → List (List F × List F × List G)
+  | [] => []
+  | b :: bs => (b.1, b.2, (accUpdate α V b.1 b.2).2) :: published α (accUpdate α V b.1 b.2).1 bs
+
+theorem prodD_published (α y : F) (V : G) (bs : List (List F × List F)) :
+    prodD y (published α V bs) = (bs.map fun b => dad y b.2).prod := by
+  induction bs generalizing V with
+  | nil => simp [published, prodD]
+  | cons b bs ih => simp [published, prodD, ih]
+
+/-- telescoping identity behind `evaluate_deltas` -/
+theorem deltasPoly_eval (α y : F) (V : G) (bs : List (List F × List F)) (pre : F)
+    (hd : ∀ b ∈ bs, ∀ d ∈ b.2, d + α ≠ 0) :
+    (y + α) • evalG (deltasPoly y pre (published α V bs)) y
+      = pre • (prodD y (published α V bs) • runAcc α V bs - prodA y (published α V bs) • V) := by
+  induction bs generalizing V pre with
+  | nil => simp [published, deltasPoly, evalG, prodD, prodA, runAcc]
+  | cons b bs ih =>
+    have hdb : ∀ d ∈ b.2, d + α ≠ 0 := hd b (by simp)
+    have hb := batchAdd_ne_zero α b.2 hdb
+    have hω := createCoefficients_eval α y b.1 b.2 hdb
+    simp only [published, deltasPoly, prodD, prodA, runAcc, evalG_polyAddG, evalG_map_smul', smul_add]
+    rw [ih _ _ (fun b' hb' => hd b' (by simp [hb']))]
+    simp only [accUpdate, evalG_map_smul, batchDel]
+    set ω := polyEval (createCoefficients α b.1 b.2) y with hωd
+    set PA := prodA y (published α ((batchAdd α b.1 * (batchAdd α b.2)⁻¹) • V) bs) with hPA
+    set PD := prodD y (published α ((batchAdd α b.1 * (batchAdd α b.2)⁻¹) • V) bs) with hPD
+    set Vend := runAcc α ((batchAdd α b.1 * (batchAdd α b.2)⁻¹) • V) bs with hVend
+    have key : ((y + α) * ω) • V = (batchAdd α b.1 * (batchAdd α b.2)⁻¹ * dad y b.2 - dad y b.1) • V := by
+      congr 1
+      rw [mul_comm]; rw [hω]; field_simp
+    have e : (y + α) • ((PA * pre) • ω • V) = (PA * pre) • (((y + α) * ω) • V) := by
+      simp only [smul_smul]; congr 1; ring
+    rw [e, key]
+    module
+
+theorem prodD_ne_zero (α y : F) (V : G) (bs : List (List F × List F)) (hdel : ∀ b ∈ bs, dad y b.2 ≠ 0) :
+    prodD y (published α V bs) ≠ 0 := by
+  induction bs generalizing V with
+  | nil => simp [published, prodD]
+  | cons b bs ih =>
+    simp only [published, prodD]
+    exact mul_ne_zero (hdel b (by simp)) (ih _ (fun b' hb' => hdel b' (by simp [hb'])))
+
+/-- when nothing at all is published the accumulator did not move -/
+theorem deltasPoly_nil (α y : F) (V : G) (bs : List (List F × List F)) (pre : F)
+    (h : deltasPoly y pre (published α V bs) = []) : runAcc α V bs = V := by
+  induction bs generalizing V pre with
+  | nil => simp [runAcc]
+  | cons b bs ih =>
+    simp only [published, deltasPoly] at h
+    obtain ⟨h1, h2⟩ := polyAddG_eq_nil _ _ h
+    have hc : createCoefficients α b.1 b.2 = [] := by
+      simp only [accUpdate, List.map_eq_nil_iff] at h1
+      exact h1
+    obtain ⟨ha, hd⟩ := createCoefficients_eq_nil α b.1 b.2 hc
+    simp only [runAcc]
+    rw [ih _ _ h2]
+    simp [accUpdate, ha, hd, batchAdd, batchDel]
+
+/-- **Multi-batch update.** For every history of batches (any number, any sizes, empty ones included)
+none of which deletes `y`, the witness updated by **one** `multi_batch_update` call over all the
+published data verifies against the final accumulator. -/
+theorem multi_batch_update_isWitness (α y : F) (V C : G) (bs : List (List F × List F))
+    (hd : ∀ b ∈ bs, ∀ d ∈ b.2, d + α ≠ 0) (hdel : ∀ b ∈ bs, dad y b.2 ≠ 0)
+    (hw : IsWitness α y C V) :
+    IsWitness α y (mwMultiBatchUpdate C y (published α V bs)) (runAcc α V bs) := by
+  have hD := prodD_ne_zero α y V bs hdel
+  unfold IsWitness at *
+  unfold mwMultiBatchUpdate evaluateDeltas
+  simp only [hD, if_false]
+  cases hp : deltasPoly y 1 (published α V bs) with
+  | nil =>
+    simp only [polyEvalG]
+    rw [deltasPoly_nil α y V bs 1 hp]; exact hw
+  | cons p0 ps =>
+    rw [polyEvalG_some, ← hp]
+    simp only [mwApply]
+    have key := deltasPoly_eval α y V bs 1 hd
+    rw [one_smul] at key
+    set PD := prodD y (published α V bs)
+    set PA := prodA y (published α V bs)
+    set E := evalG (deltasPoly y 1 (published α V bs)) y
+    have e1 : (y + α) • ((PA * PD⁻¹) • C + PD⁻¹ • E) = (PA * PD⁻¹) • ((y + α) • C) + PD⁻¹ • ((y + α) • E) := by
+      module
+    rw [e1, hw, key]
+    have : (PA * PD⁻¹) • V + PD⁻¹ • (PD • runAcc α V bs - PA • V) = (PD⁻¹ * PD) • runAcc α V bs := by
+      module
+    rw [this, inv_mul_cancel₀ hD, one_smul]
+
+/-- … which therefore equals the witness obtained batch by batch, and the one recomputed with the secret key -/
+theorem multi_batch_eq_stepwise (α y : F) (V C : G) (bs : List (List F × List F))
+    (hy : y + α ≠ 0) (hd : ∀ b ∈ bs, ∀ d ∈ b.2, d + α ≠ 0) (hdel : ∀ b ∈ bs, dad y b.2 ≠ 0)
+    (hw : IsWitness α y C V) :
+    mwMultiBatchUpdate C y (published α V bs) = runWitness α y V C bs := by
+  rw [isWitness_unique α y _ _ hy (multi_batch_update_isWitness α y V C bs hd hdel hw),
+      isWitness_unique α y _ _ hy (history_update_isWitness α y V C bs hd hdel hw)]
+
+
 theorem dad_eq_zero_of_mem (y : F) (dels : List F) (h : y ∈ dels) : dad y dels = 0 := by
   induction dels with
   | nil => simp at h
